@@ -284,7 +284,8 @@ class V2World:
                 "key": self.point(key_name, fmt=key_fmt).hex(), "auth_data": auth.hex(),
                 "signature": sig.hex(), "signed_by": signed_by}
 
-    def quote_element(self, name, signed_by, signer, custom=None, extra=b"", signer_curve="p256"):
+    def quote_element(self, name, signed_by, signer, custom=None, extra=b"", signer_curve="p256", ints=None):
+        """ints: {(offset, width): value} written little-endian into the quote before signing."""
         if custom is None:
             r = Rng(self.label + "-custom")
             custom = b"POWHSM:5.4::sgx" + r.bytes(32) + r.bytes(32) + r.bytes(32) + r.bytes(8) + bytes(8)
@@ -294,6 +295,11 @@ class V2World:
             + r.nz_bytes(20)
         assert len(head) == 48
         msg = head + self.report_body(hashlib.sha256(custom).digest(), "quote-%d" % len(custom)) + extra
+        if ints:
+            m = bytearray(msg)
+            for (off, width), val in ints.items():
+                m[off:off + width] = val.to_bytes(width, "little")
+            msg = bytes(m)
         sig = self.ec_sign(signer, msg, signer_curve)
         return {"name": name, "type": "sgx_quote", "message": msg.hex(), "custom_data": custom.hex(),
                 "signature": sig.hex(), "signed_by": signed_by}
